@@ -618,7 +618,7 @@ pub fn check_mut(rep: &mut Report, script: &[String], rng: &mut Rng) {
             }
             let two = sel.sub.is_some();
             // TARGET ?x OFFSET b e: the part of ?x's text the offset selects (relative to ?x, end-aligned cursors counted from ?x's end)
-            let offset_txt: Option<&str> = if !two && matches!(sel.rtype, "TEXT" | "ANNOTATION") && rng.chance(45) { Some(*rng.pick(&["0 1", "1 -1", "-2 -0", "0 -0", "1", "-1", "0 99", "2 1", "-3 -1"])) } else { None };
+            let offset_txt: Option<&str> = if !two && matches!(sel.rtype, "TEXT" | "ANNOTATION" | "RESOURCE") && rng.chance(45) { Some(*rng.pick(&["0 1", "1 -1", "-2 -0", "0 -0", "1", "-1", "0 99", "2 1", "-3 -1"])) } else { None };
             let offset: Option<Offset> = offset_txt.map(|t| { let mut it = t.split(' '); let c1 = Cursor::try_from(it.next().unwrap()).unwrap(); let c2 = it.next().map(|x| Cursor::try_from(x).unwrap()).unwrap_or(Cursor::EndAligned(0)); Offset::new(c1, c2) });
             let text = format!("ADD ANNOTATION ?n WITH {}DATA {} {} {}; TARGET ?x{}; {}{}{{ {} }}", if with_id { "ID \"added-by-query\"; " } else { "" }, q(&set), q(&key), val_txt, offset_txt.map(|t| format!(" OFFSET {}", t)).unwrap_or_default(), if two { "TARGET ?y; " } else { "" }, if two { kind } else { "" }, sel.text());
             rep.count(&format!("query2:add:{}{}{}", sel.rtype, if two { ":two-targets" } else { "" }, if offset.is_some() { ":offset" } else { "" }));
@@ -631,6 +631,8 @@ pub fn check_mut(rep: &mut Report, script: &[String], rng: &mut Rng) {
                     if let (Some(off), Some(item)) = (&offset, row.first()) {
                         sels = vec![match item {
                             Item::A(h) => SelectorBuilder::AnnotationSelector(BuildItem::Handle(AnnotationHandle::new(*h)), Some(off.clone())),
+                            // (on a resource: that part of its text)
+                            Item::R(h) => SelectorBuilder::TextSelector(BuildItem::Handle(TextResourceHandle::new(*h)), off.clone()),
                             Item::T(r, b, e) => {
                                 let len = e - b;
                                 let pos = |c: &Cursor| -> Result<usize, StamError> { match c { Cursor::BeginAligned(n) if *n <= len => Ok(*n), Cursor::EndAligned(k) if k.unsigned_abs() <= len => Ok(len - k.unsigned_abs()), _ => Err(StamError::CursorOutOfBounds(*c, "relative to the selected text")) } };
